@@ -193,7 +193,7 @@ def body(ctx, c):
                 for t, lag, is_copy, dseq, typ in recs:
                     if lag > 256:
                         flags.add(("beyond-256", side))
-            for t, seq, is_copy, ok, lag in watch.datagrams:
+            for t, seq, is_copy, ok, lag, _n in watch.datagrams:
                 if is_copy and lag > 32:
                     flags.add(("copy-beyond-32", side))
         classify_duplicates(ctx, w, watches, c["strict"])
